@@ -655,6 +655,43 @@ func runC16(ctx *common.Ctx) error {
 				}
 			}
 		}
+		// UID ranges with one bound inside a UID gap (a missing UID below the highest) and the other an existing UID, both
+		// orders, and ranges between two missing UIDs: the bound in the gap must neither pull in its neighbour nor drop
+		// the existing bound (seeded change C16-12: upper index bumped when the START of the range exists)
+		if len(uids) >= 2 {
+			var gaps []int
+			for u := 1; u < maxuid; u++ {
+				if posOf(uids, u) < 0 {
+					gaps = append(gaps, u)
+				}
+			}
+			shapes := 0
+			for _, g := range gaps {
+				for _, a := range uids {
+					if shapes >= 16 {
+						break
+					}
+					if a == g+1 || a == g-1 || a == uids[0] || a == maxuid {
+						shapes++
+						for _, kind := range []string{"UIDFETCH", "UIDCOPY", "UIDSEARCHUID"} {
+							for _, r := range []string{fmt.Sprintf("%d:%d", a, g), fmt.Sprintf("%d:%d", g, a)} {
+								if _, err := runCase(name, uids, kind, parseSet(r)); err != nil {
+									return err
+								}
+							}
+						}
+					}
+				}
+			}
+			if len(gaps) >= 2 {
+				for _, kind := range []string{"UIDFETCH", "UIDSTORE"} {
+					r := fmt.Sprintf("%d:%d", gaps[0], gaps[len(gaps)-1])
+					if _, err := runCase(name, uids, kind, parseSet(r)); err != nil {
+						return err
+					}
+				}
+			}
+		}
 		for i := 0; i < perView; i++ {
 			kind := kinds[rng.Pick(len(kinds))]
 			uidMode := (strings.HasPrefix(kind, "UID") && kind != "UIDSEARCH") || kind == "SEARCHUID"
